@@ -2,7 +2,7 @@
    C11 (navigation state) and an expression slot (MATHML_INSTANCE: replaced by set_mathml only after the clean-up of
    the new string succeeded).  What parsing and canonicalization make of a string, and what the navigation rules
    answer, are inputs of the model (oracles); the model is about what the interface does with them. *)
-From MC Require Import Lib.Base Model.Prefs Model.Nav.
+From MC Require Import Lib.Base Model.Prefs Model.Nav Gen.KeyTab Model.KeyPress.
 Local Open Scope N_scope.
 
 Section Session.
@@ -16,7 +16,8 @@ Section Session.
   Inductive call :=
   | CSetPref (name value : str)
   | CSetMathml (r : option (list str * str))            (* None: the string is rejected (not XML, not MathML, arity, ...) *)
-  | CNav (cmd : str) (outs : nat -> rule_out)           (* do_navigate_command / do_navigate_keypress *)
+  | CNav (cmd : str) (outs : nat -> rule_out)           (* do_navigate_command *)
+  | CKey (k : N) (shift ctrl alt meta : bool) (outs : nat -> rule_out)   (* do_navigate_keypress: the key is translated (Model/KeyPress.v), then the command runs *)
   | CSetNode (id : str) (o : N) (leaf_ok : bool)        (* set_navigation_node *)
   | CGet.                                               (* speech, braille, overview, positions, preferences: read only *)
   Inductive answer := AOk | AErr | APanic.
@@ -35,6 +36,16 @@ Section Session.
         match s_expr s with
         | None => (s, AErr)                               (* "MathML has not been set" *)
         | Some (ids, root) => let '(n, st) := nav_command ids root cmd outs (s_nav s) in (mkses (s_prefs s) (s_expr s) n, of_status st)
+        end
+    | CKey k sh ct al me outs =>
+        match press k sh ct al me with
+        | PErr => (s, AErr)                                  (* "Unknown key press/command", "Invalid argument" *)
+        | PPanic => (s, APanic)
+        | PCommand cmd =>
+          match s_expr s with
+          | None => (s, AErr)
+          | Some (ids, root) => let '(n, st) := nav_command ids root cmd outs (s_nav s) in (mkses (s_prefs s) (s_expr s) n, of_status st)
+          end
         end
     | CSetNode id o leaf_ok =>
         match s_expr s with
